@@ -1,7 +1,7 @@
 (* C20 — Reported locations point at the reported item.  Property theorems only.
    Model: Lex.v (template lexer with start offsets, liquid-tag line scanner, line_col). *)
 From Coq Require Import String.
-From LiquidVerif Require Import Prelude Lex LexSpec Lex_Proofs Lex_C20_Proofs MacroArgs.
+From LiquidVerif Require Import Prelude Lex LexSpec Lex_Proofs Lex_C20_Proofs ExprLex ExprLex_Proofs MacroArgs.
 Local Open Scope string_scope. Local Open Scope list_scope.
 
 (* Offset invariant of the scanner.  For all delimiters (tag and output closing delimiters non-empty), for the
@@ -40,6 +40,36 @@ Theorem C20_liquid_inner_offsets : forall d (src : str) base expr ts,
 Proof. exact liquid_inner_offsets. Qed.
 Print Assumptions C20_liquid_inner_offsets.
 
+(* Expression tokens (liquid/builtin/expressions/_tokenize.py, modelled rule by rule in ExprLex.v).  For every
+   expression text src, every parent offset base, every token the tokenizer yields and the token carried by its own
+   syntax error ("unexpected 'x'", "unknown operator"): the start is base + o with o strictly inside the expression,
+   and the token's value is the expression text at  o + value_offset,  where value_offset is 0 for every kind except
+     string       1                         (the text after the opening quote),
+     identindex   1 + leading whitespace    (the digits after "[" and whitespace),
+     identstring  2 + leading whitespace    (the text after "[", whitespace and the quote);
+   for error tokens the value is the text at o itself. *)
+Theorem C20_expr_token_offsets : forall base src i, In i (etokenize base src) -> eitem_ok base src i.
+Proof. exact expr_token_offsets. Qed.
+Print Assumptions C20_expr_token_offsets.
+
+(* a STRING match is: a quote, the value, the same quote *)
+Theorem C20_expr_string_enclosed : forall s vo vl tot, ematch s = EM EString vo vl tot ->
+  exists q, is_quote q = true /\ sub s 0 1 = [q] /\ sub s (1 + vl) 1 = [q] /\ tot = vl + 2.
+Proof. exact ematch_string. Qed.
+Print Assumptions C20_expr_string_enclosed.
+
+(* composition with the template lexer: if the expression token (value expr, start base) points at its own text in the
+   template source (C20_token_offsets, C20_liquid_inner_offsets), every token of the expression points at its own text
+   in the TEMPLATE source: start_index = parent_token.start_index + match.start() is right. *)
+Theorem C20_expr_tokens_in_source : forall (src : str) base expr t,
+  sub src (N.to_nat base) (length expr) = expr ->
+  In (ETok t) (etokenize base expr) ->
+  let o := N.to_nat (e_start t) - N.to_nat base in
+  N.to_nat base <= N.to_nat (e_start t) < N.to_nat base + length expr /\
+  sub src (N.to_nat (e_start t) + value_offset (e_kind t) (skipn (S o) expr)) (length (e_value t)) = e_value t.
+Proof. exact expr_tokens_in_source. Qed.
+Print Assumptions C20_expr_tokens_in_source.
+
 (* Line and column (Span.line_col, LiquidError._error_context): for every index inside the source the computation
    succeeds — so formatting an error whose token comes from the lexer cannot raise ValueError — and returns the
    1-based number of the line containing the index and the distance of the index from that line's start. *)
@@ -69,6 +99,20 @@ Example C20_tokens_example :
        {| t_kind := KExpr; t_value := lit "x.y"; t_start := 9 |};
        {| t_kind := KOutput; t_value := lit "{{ z | f }}"; t_start := 17 |};
        {| t_kind := KExpr; t_value := lit "z | f"; t_start := 20 |} ].
+Proof. vm_compute. reflexivity. Qed.
+
+Example C20_expr_tokens_example :
+  etokenize 10 (lit "a.b[ 'k' ] | f: (1..n), 'x y' >= 2.5 and q? =! z") =
+  [ ETok {| e_kind := EWord; e_value := lit "a"; e_start := 10 |}; ETok {| e_kind := EDot; e_value := lit "."; e_start := 11 |};
+    ETok {| e_kind := EWord; e_value := lit "b"; e_start := 12 |}; ETok {| e_kind := EIdentString; e_value := lit "k"; e_start := 13 |};
+    ETok {| e_kind := EPipe; e_value := lit "|"; e_start := 21 |}; ETok {| e_kind := EWord; e_value := lit "f"; e_start := 23 |};
+    ETok {| e_kind := EColon; e_value := lit ":"; e_start := 24 |}; ETok {| e_kind := ERangeLit; e_value := lit "("; e_start := 26 |};
+    ETok {| e_kind := EInteger; e_value := lit "1"; e_start := 27 |}; ETok {| e_kind := ERange; e_value := lit ".."; e_start := 28 |};
+    ETok {| e_kind := EWord; e_value := lit "n"; e_start := 30 |}; ETok {| e_kind := ERparen; e_value := lit ")"; e_start := 31 |};
+    ETok {| e_kind := EComma; e_value := lit ","; e_start := 32 |}; ETok {| e_kind := EString; e_value := lit "x y"; e_start := 34 |};
+    ETok {| e_kind := EGe; e_value := lit ">="; e_start := 40 |}; ETok {| e_kind := EFloat; e_value := lit "2.5"; e_start := 43 |};
+    ETok {| e_kind := EKeyword; e_value := lit "and"; e_start := 47 |}; ETok {| e_kind := EWord; e_value := lit "q?"; e_start := 51 |};
+    EErrOp (lit "=!") 54 ].
 Proof. vm_compute. reflexivity. Qed.
 
 Example C20_line_col_example : line_col (lit "ab" ++ [10%N] ++ lit "cd" ++ [13; 10]%N ++ lit "e") 7 = Some (3%N, 0%N).
